@@ -189,13 +189,15 @@ claim("C18", "exploration",
 claim("C07", "exploration",
       "structure-aware protocol fuzzing (Hypothesis) from a raw reference peer with identifier harvesting, against a real "
       "default-configuration Connection; oracle = canaries, provenance audit of every unboxed object, pickle / eval / "
-      "os.system tripwires, import canary, policy-denial check per by-name request, containment of a second connection",
+      "os.system tripwires, import canary, policy-denial check per by-name request, containment of a second connection; "
+      "plus a coverage-guided campaign (atheris/libFuzzer bytes decoded into histories by Hypothesis's fuzz_one_input over the same "
+      "grammar, the same oracle inside the target, artifacts re-judged outside the fuzzer)",
       "The generator is a grammar over the protocol (all message kinds, all 20 handlers with well-typed and ill-typed "
       "arguments, every boxing label) that indexes into identifiers disclosed by earlier replies, taken from another "
       "connection, released, or forged from real addresses, so deep states are reached by construction. Security "
       "properties are sampled, never proven.",
       "Operations the protocol grants on any held reference (call, repr, str, hash, dir, inspect, instancecheck, buffiter) "
-      "are not canaries; resource exhaustion is out of scope; no coverage-guided byte-level campaign for this property.",
+      "are not canaries; resource exhaustion is out of scope; the coverage-guided campaign explores the grammar's choice sequences, not raw packet bytes (those are C04's and C05's domain).",
       "DESIGN.md §4 C07")
 
 claim("C16", "exploration",
